@@ -347,6 +347,7 @@ pub fn run(ctx: &mut Ctx) {
 }
 
 fn sequential_case(ctx: &mut Ctx, case: u64, rng: &mut Rng) {
+    iroh_docs::verif::age_transaction_at(usize::MAX);
     let docs: Vec<Universe> = (1..=2).map(|i| Universe::with(namespace(i), 2)).collect();
     let t = docs[0].t0 + 100;
     iroh_docs::verif::set_clock(t);
@@ -369,6 +370,13 @@ fn sequential_case(ctx: &mut Ctx, case: u64, rng: &mut Rng) {
         // change agent-C14-7)
         let mut author_known = [true, true];
         for _ in 0..rng.range(5, 40) {
+            // One step in six has the store's age-based commit fall inside one of its next accesses
+            // (hook H6; added after seeded change agent-C14-9): what was acknowledged stays
+            // acknowledged wherever the batch is cut.
+            if rng.chance(1, 6) {
+                iroh_docs::verif::age_transaction_at(iroh_docs::verif::store_accesses() + rng.below(4));
+                ctx.count("steps_with_the_age_based_commit_forced", 1);
+            }
             if rng.chance(1, 14) {
                 let i = rng.below(2);
                 let a = &docs[0].authors[i];
@@ -663,6 +671,7 @@ struct Rec {
 }
 
 fn concurrent_case(ctx: &mut Ctx, case: u64, rng: &mut Rng) {
+    iroh_docs::verif::age_transaction_at(usize::MAX);
     let docs: Arc<Vec<Universe>> = Arc::new((1..=2).map(|i| Universe::with(namespace(i), 2)).collect());
     let t = docs[0].t0 + 100;
     iroh_docs::verif::set_clock(t);
